@@ -70,17 +70,23 @@ var structuredPts []ref.Point
 func structuredDlogPoints() []ref.Point {
 	if structuredPts == nil {
 		rng := rand.New(rand.NewSource(20240601))
-		for i := 0; i < 400 && len(structuredPts) < 60; i++ {
+		for i := 0; i < 460 && len(structuredPts) < 90; i++ {
 			var D uint32
-			switch i % 4 {
-			case 0:
-				D = uint32(rng.Intn(256)) << (8 * uint(2+rng.Intn(2))) // low 16 bits zero
-			case 1:
-				D = (rng.Uint32() >> 16) << 16
-			case 2:
-				D = uint32(rng.Intn(256)) << (8 * uint(rng.Intn(4)))
-			default:
-				D = uint32(rng.Intn(128)) << 25
+			if i < 60 {
+				// a single bit of the discrete logarithm set (y^2 in the subgroup of order 2^(32-k) exactly), twice each;
+				// D = 2^31 is the element whose odd-part power is -1
+				D = uint32(1) << uint(31-i%31)
+			} else {
+				switch i % 4 {
+				case 0:
+					D = uint32(rng.Intn(256)) << (8 * uint(2+rng.Intn(2))) // low 16 bits zero
+				case 1:
+					D = (rng.Uint32() >> 16) << 16
+				case 2:
+					D = uint32(rng.Intn(256)) << (8 * uint(rng.Intn(4)))
+				default:
+					D = uint32(rng.Intn(128)) << 25
+				}
 			}
 			x := c17xFromY2(c17target(D&^1, rng))
 			if x == nil || !ref.SubgroupCheck(x) {
